@@ -56,6 +56,12 @@ def rich_state(P, A):
             return B.timing_block(text_time=d, media_time='3')
         if kind == 'empty':
             return B.timing_block()
+        if kind == 'blank':
+            # <StoryDuration/>, <TextTime/>, <MediaTime/>: present but blank
+            tb_ = B.timing_block(dur='0', text_time='0', media_time='0')
+            for c_ in tb_.find('mosPayload'):
+                c_.text = None
+            return tb_
         return B.timing_block(dur=d)
     meta = E('mosExternalMetadata', T('mosScope', 'PLAYLIST'), T('mosSchema', 'sch.ro'),
              E('mosPayload', T('Owner', c1), E('nested', T('leaf', 'x'), k=c1)))
